@@ -262,7 +262,9 @@ func makeLeaf(t reflect.Type, seed uint64, plain, strcast bool) reflect.Value {
 	if seed == 0 {
 		seed = 1
 	}
-	v := makeValue(t, seed, shape.ValueOpts{Plain: plain})
+	// one non-text leaf in three has nil elements / map values where the
+	// element type is nil-able (an entry written as nil must stay an entry)
+	v := makeValue(t, seed, shape.ValueOpts{Plain: plain, NilElems: !strcast && seed%3 == 2})
 	if strcast {
 		v = spellable(v)
 	}
@@ -430,6 +432,9 @@ func hasOtherKeyMap(t reflect.Type, depth int) bool {
 // sub-seeds, so the value is a pure function of (t, seed, opts)).
 func makeValue(t reflect.Type, seed uint64, o shape.ValueOpts) reflect.Value {
 	if !hasOtherKeyMap(t, 0) {
+		// nil entries are made only here, in maps with non-string keys
+		// (the substitution mangler rebuilds those entry by entry)
+		o.NilElems = false
 		return shape.MakeValue(t, seed, o)
 	}
 	sub := func(i uint64) uint64 { return seed*0x9e3779b97f4a7c15 + i*0xbf58476d1ce4e5b9 | 1 }
@@ -458,6 +463,13 @@ func makeValue(t reflect.Type, seed uint64, o shape.ValueOpts) reflect.Value {
 			k := makeValue(t.Key(), sub(uint64(2*i)+10), o)
 			if m.MapIndex(k).IsValid() {
 				continue
+			}
+			if o.NilElems && i%2 == 1 {
+				switch t.Elem().Kind() {
+				case reflect.Pointer, reflect.Slice, reflect.Map:
+					m.SetMapIndex(k, reflect.Zero(t.Elem()))
+					continue
+				}
 			}
 			m.SetMapIndex(k, makeValue(t.Elem(), sub(uint64(2*i)+11), o))
 		}
